@@ -39,7 +39,7 @@ OWN = {
     "C15": {"first_candidate_is_the_composed_text", "at_most_nine", "english_candidate_iff_enabled_and_not_ansi_and_different", "english_candidate_is_the_raw_keys",
             "non_emoji_candidates_by_distance", "no_candidate_twice", "dictionary_candidates_are_search_answers_wrapped", "pattern_is_anchored",
             "pattern_has_the_letter_class", "literal_part_has_no_regex_meta_character", "literal_part_is_the_word_without_punctuation", "wildcard_width_by_length",
-            "every_match_is_offered", "shown_text_is_the_dictionary_word_with_blocked_ligatures", "distance_is_computed_from_the_shown_text",
+            "every_match_is_offered", "candidate_begins_with_the_typed_word", "shown_text_is_the_dictionary_word_with_blocked_ligatures", "distance_is_computed_from_the_shown_text",
             # "the last candidate is the raw key text" of *this* word: the raw keys are empty whenever nothing is composed
             "session_invariant_preserved",
             # "the first candidate is always the composed text": the list an event returns was made for the text as it now stands
